@@ -140,16 +140,16 @@ func c13Build(id string, lhs, goType, kind string, args []string, tag string, mo
 		return fmt.Sprintf("%s = %s\n", lhs, pres)
 	case "string":
 		if opt || strings.HasPrefix(goType, "*") {
-			return fmt.Sprintf("if %s {\n\tx := string(verifBytesN(%q, bl))\n\t%s = &x\n}\n", pres, tag, lhs)
+			return fmt.Sprintf("if %s {\n\tx := string(verif"+id+"Bytes(%q, bl))\n\t%s = &x\n}\n", pres, tag, lhs)
 		}
-		return fmt.Sprintf("%s = string(verifBytesN(%q, bl))\n", lhs, tag)
+		return fmt.Sprintf("%s = string(verif"+id+"Bytes(%q, bl))\n", lhs, tag)
 	case "binary":
-		return fmt.Sprintf("if %s {\n\t%s = verifBytesN(%q, bl)\n}\n", pres, lhs, tag)
+		return fmt.Sprintf("if %s {\n\t%s = verif"+id+"Bytes(%q, bl)\n}\n", pres, lhs, tag)
 	case "wire", "signature":
 		if kind == "signature" {
 			return ""
 		}
-		return fmt.Sprintf("if %s {\n\tif bl == 2 {\n\t\t%s = enc.Wire{verifBytesN(%q, 1), verifBytesN(%q, 2)}\n\t} else {\n\t\t%s = enc.Wire{verifBytesN(%q, bl)}\n\t}\n}\n", pres, lhs, tag+"a", tag+"b", lhs, tag)
+		return fmt.Sprintf("if %s {\n\tif bl == 2 {\n\t\t%s = enc.Wire{verifBytesN(%q, 1), verifBytesN(%q, 2)}\n\t} else {\n\t\t%s = enc.Wire{verif"+id+"Bytes(%q, bl)}\n\t}\n}\n", pres, lhs, tag+"a", tag+"b", lhs, tag)
 	case "name", "interestName":
 		return fmt.Sprintf("if %s {\n\t%s = verif%sName(%q)\n}\n", pres, lhs, id, tag)
 	case "struct":
@@ -188,7 +188,7 @@ func c13Build(id string, lhs, goType, kind string, args []string, tag string, mo
 			inner = fmt.Sprintf("e = verif%sName(%q)\n", id, tag+"e")
 		}
 		if ek == "binary" {
-			inner = fmt.Sprintf("e = verifBytesN(%q, bl)\n", tag+"e")
+			inner = fmt.Sprintf("e = verif"+id+"Bytes(%q, bl)\n", tag+"e")
 		}
 		sb.WriteString(indent(inner))
 		fmt.Fprintf(&sb, "\t%s = append(%s, e)\n}\n", lhs, lhs)
@@ -392,6 +392,37 @@ func genC13Models(id string) ([]harnessFile, error) {
 }
 
 `, id, dirTag(gm.dir), n, id, n, id, len(m.fields), id, n, id, id, n, n, n, id, id, id, n, id, id, n, id, id, id, n, id, id, id, id, n, id, id, id, n)
+			fmt.Fprintf(&sb, `func Verif%s_Long_%s_%s() {
+	verif%sLongLeft = 1
+	v := verif%sBuild_%s(verifParam("modeldepth", 1), verif%sMaskLong(%d), 0)
+	if verif%sLongLeft > 0 {
+		return // no byte-valued field in this value
+	}
+	var wire enc.Wire
+	announced := 0
+	verifNoPanic("%s/long/encode-no-panic", func() {
+		e := %sEncoder{}
+		e.Init(v)
+		announced = int(e.length)
+		wire = e.Encode(v)
+	})
+	verifAssert(wire != nil, "%s/long/encodes")
+	b := wire.Join()
+	verifAssert(len(b) == announced, "%s/long/encoded-length-equals-announced")
+	var v2 *%s
+	var err error
+	verifNoPanic("%s/long/decode-no-panic", func() {
+		ctx := %sParsingContext{}
+		ctx.Init()
+		v2, err = ctx.Parse(enc.NewBufferReader(b), false)
+	})
+	verifAssert(err == nil && v2 != nil, "%s/long/decodes")
+	if err == nil && v2 != nil {
+		verif%sEq_%s(v, v2)
+	}
+}
+
+`, id, dirTag(gm.dir), n, id, id, n, id, len(m.fields), id, id, n, id, id, n, id, n, id, id, n)
 		}
 		out = append(out, harnessFile{path: filepath.Join(verifDir, "harness", id, "gen_model_"+dirTag(gm.dir)+".go"), dir: gm.dir, pkgName: gm.pkg, src: []byte(sb.String())})
 	}
@@ -400,7 +431,31 @@ func genC13Models(id string) ([]harnessFile, error) {
 
 const c13Common = `// generated at check time by vcheck (genC13Models)
 
+// "long" mode: the next byte-valued field (string, binary, wire, name component) gets a symbolic length
+// 0..70000 with opaque contents, so that element lengths cross the 1/3/5-byte length-form boundaries
+var verifIDLongLeft int
+
+func verifIDBytes(tag string, bl int) []byte {
+	if verifIDLongLeft > 0 {
+		verifIDLongLeft--
+		return verifBytes(tag, 70000)
+	}
+	return verifBytesN(tag, bl)
+}
+
+func verifIDMaskLong(n int) uint64 {
+	k := verifChoice("mask", n+1)
+	if k == 0 {
+		return uint64(1)<<uint(n) - 1
+	}
+	return 1 << uint(k-1)
+}
+
 func verifIDName(tag string) enc.Name {
+	if verifIDLongLeft > 0 {
+		verifIDLongLeft--
+		return enc.Name{enc.Component{Typ: enc.TypeGenericNameComponent, Val: verifBytes(tag+"comp", 70000)}}
+	}
 	n := make(enc.Name, verifChoice(tag+"ncomp", 3))
 	for i := range n {
 		n[i] = enc.Component{Typ: enc.TypeGenericNameComponent, Val: verifBytesN(tag+"comp", verifChoice(tag+"complen", 2))}
